@@ -26,10 +26,43 @@ _tls = threading.local()
 _installed = [False]
 
 
+GLOBAL_CTL = [None]      # controller for threads we do not create ourselves (the server's workers)
+
+
 def _yield(point):
     ctl = getattr(_tls, "ctl", None)
+    if ctl is None:
+        ctl = GLOBAL_CTL[0]
     if ctl is not None:
         ctl(point)
+
+
+class PauseFirst:
+    """global controller: the first thread that reaches its `pause_at`-th yield point stops there
+    until released (or for at most `limit` seconds); every other thread runs through"""
+
+    def __init__(self, pause_at, limit=10.0):
+        self.pause_at, self.limit = pause_at, limit
+        self.lock = threading.Lock()
+        self.owner = None
+        self.count = 0
+        self.points = []
+        self.paused = threading.Event()
+        self.go = threading.Event()
+
+    def __call__(self, point):
+        me = threading.get_ident()
+        with self.lock:
+            if self.owner is None:
+                self.owner = me
+            if self.owner != me:
+                return
+            i = self.count
+            self.count += 1
+            self.points.append(point)
+        if self.pause_at is not None and i == self.pause_at:
+            self.paused.set()
+            self.go.wait(self.limit)
 
 
 def install():
